@@ -175,7 +175,9 @@ def one_case(rng, tmp):
             # JSON-backed database and its pickle answer identically
             paths = []
             for i, d in enumerate(pristine):
-                pth = os.path.join(tmp, f'db{rng.randrange(1 << 30)}_{i}.json')
+                # (the same few paths are written again and again with new content: a database answers from what its
+                # files hold when it is created, not from what an earlier database read there)
+                pth = os.path.join(tmp, f'db{rng.randrange(3)}_{i}.json')
                 json.dump(d, open(pth, 'w'))
                 paths.append(pth)
             try:
